@@ -8,3 +8,4 @@ import BalmProofs.Props.C04
 #print axioms Balm.Props.C04.plain_history_inv
 #print axioms Balm.concrete_plain_history_inv
 #print axioms Balm.Impl.judgeStrict_sound
+#print axioms Balm.Props.C04.expandBlock_inv
